@@ -106,7 +106,40 @@ func extremeValue(c *simkit.Choices, f model.Format) ([]byte, model.Val, string)
 		default:
 			enc = append(append([]byte{'S'}, ubLen(len(s))...), s...)
 		}
-		switch c.N(4) {
+		switch c.N(5) {
+		case 4: // [<long>, "s0", "s1", ... hundreds of short strings and no number]
+			k := []int{200, 257, 300, 600}[c.N(4)]
+			v := model.Val{K: model.VArr, A: []model.Val{sv}}
+			switch f {
+			case model.JSON:
+				b.WriteString(`[`)
+				b.Write(enc)
+			case model.CBOR:
+				b.Write(cborHead(4, k+1))
+				b.Write(enc)
+			default:
+				b.WriteByte('[')
+				b.Write(enc)
+			}
+			for i := 0; i < k; i++ {
+				t := "value-" + string(rune('a'+i%26)) + string(rune('a'+i/26%26)) + "-abcdef"
+				v.A = append(v.A, model.Text(t))
+				switch f {
+				case model.JSON:
+					b.WriteString(`,"` + t + `"`)
+				case model.CBOR:
+					b.Write(cborHead(3, len(t)))
+					b.WriteString(t)
+				default:
+					b.WriteByte('S')
+					b.Write(ubLen(len(t)))
+					b.WriteString(t)
+				}
+			}
+			if f != model.CBOR {
+				b.WriteByte(']')
+			}
+			return b.Bytes(), v, "long-string-then-many-strings"
 		case 0: // {"a": <long>, "b": 1}: a key right after the long string
 			v := model.Val{K: model.VObj, Keys: []string{"a", "b"}, A: []model.Val{sv, model.Int(1)}}
 			switch f {
